@@ -28,6 +28,8 @@ def subst_value(v, consts):
         return ir.Lo(subst_value(v.v, consts))
     if isinstance(v, ir.Pos):
         return ir.Pos(v.name, subst_value(v.base, consts))
+    if isinstance(v, ir.PosC):
+        return ir.Lit(consts[v.name] + v.base.eval(ir.Ctx(consts, {}, 0)))   # %position(K, n) written as its value
     return v
 
 
